@@ -27,6 +27,12 @@ theorem pub_order_in_source :
     Generated.snapshotOrder = ["scanI2e", "beginRead"] ∧
     Generated.sinkInPlace = true ∧ Generated.indexLive = true ∧ Generated.storeLive = true := by decide
 
+/-- `compact` (and `checkpoint_on_close`) read the published run list only AFTER taking the writer lock
+    (regenerated: position of `write_lock.lock()` vs the first `published_runs` access) -/
+theorem runs_read_under_writer_lock_in_source :
+    Generated.compactHead = ["lockWriter", "readRuns"] ∧ Generated.compactRunsReadUnderLock = true ∧
+    Generated.checkpointRunsReadUnderLock = true := by decide
+
 /-- "no known finding is triggered" for snapshot `σ` read in state `s` (decidable):
     no commit step and no compaction step overlapped its acquisition, compaction has not sunk
     properties under its (non-zero) root since, and the live index has not changed since. -/
@@ -56,12 +62,40 @@ theorem quiescent_engine_consistent (h0 : Bool) (s : State) (hr : Reach (init h0
   simp only [WInv, hw] at this
   exact ⟨this.1, this.2.1, this.2.2.1, this.2.2.2.2.2⟩
 
+/-- **compaction preserves the committed transactions**: when every read of the run list that feeds
+    the segment build and the final clear happens under the writer lock (what the source does), then in
+    every reachable state at rest every committed transaction's run is in the published runs or merged
+    into the published segments — for all interleavings of commits, compactions and readers. -/
+theorem compact_preserves_committed (h0 : Bool) (s : State) (hr : Reach (init h0) s) (hw : s.w = .idle)
+    (k : Nat) (hk : k < s.committed) : k ∈ s.runs ++ s.segs :=
+  ((quiescent_engine_consistent h0 s hr hw).2.2.1 k).mpr hk
+
 /-! ### counterexample traces, one per confirmed cause (each replayed on the real code through hook H2:
     corpus/snapsched/*.ops) -/
 
 def tx : List Label := [.commitStep, .commitStep, .commitStep, .commitStep]
 def compaction : List Label := List.replicate 6 .compactStep
 def snap (j : Nat) : List Label := List.replicate 5 (.readStep j)
+
+private theorem okG : (runTrace (init false true)
+    (tx ++ [.compactRead] ++ tx ++ List.replicate 6 .compactStep)).isSome = true := by decide
+/-- run-list read BEFORE the writer lock: one commit, the compactor captures `[0]`, a second commit
+    (the compactor waits for the lock), the compaction runs from the stale list and clears ALL runs -/
+def stG : State := (runTrace (init false true)
+    (tx ++ [.compactRead] ++ tx ++ List.replicate 6 .compactStep)).get okG
+
+/-- **Counterexample (run list read before the writer lock)**: transaction 1 is committed and
+    acknowledged, yet after the compaction it is neither in the published runs nor in the segments, and
+    a fresh, undisturbed snapshot does not show it. -/
+theorem C03_counterexample_stale_run_list :
+    Reach (init false true) stG ∧ stG.w = .idle ∧ stG.committed = 2 ∧ stG.runs = [] ∧ stG.segs = [0] ∧
+    ¬ (∀ k, k < stG.committed → k ∈ stG.runs ++ stG.segs) := by
+  refine ⟨reach_of_runTrace _ .refl (Option.some_get okG).symm, by decide, by decide, by decide, by decide, ?_⟩
+  intro h
+  have := h 1 (by decide)
+  revert this
+  decide
+
 
 private theorem okA : (runTrace (init false) (tx ++ tx ++ List.replicate 5 .compactStep ++ snap 0)).isSome = true := by decide
 private theorem okB : (runTrace (init false) (tx ++ [.commitStep, .commitStep] ++ snap 0)).isSome = true := by decide
